@@ -304,3 +304,61 @@ pub proof fn thm_c08_ep(comps: Components, w: Seq<Factor>, w2: Seq<Factor>, k_ex
     lemma_ep_building(x.balance_cr@, y.balance_cr@, comps, comps, x.balance, y.balance, 1real);
     lemma_ep_rer(x.balance_cr@, y.balance_cr@, x.balance, y.balance, rv(k_exp), 1real);
 }
+
+/// the derived cogeneration factors can be computed from the simplified set whenever they can from the full one
+pub proof fn lemma_cgn_ok_needed(w: Seq<Factor>, w2: Seq<Factor>, cs: Seq<Energy>)
+    requires needed_kept(w, w2, cs), cgn_ok(w, cs),
+    ensures cgn_ok(w2, cs),
+{
+    if has_cgn_prod(cs) {
+        lemma_cgnprod_avail(cs);
+        assert(needed(cs, Carrier::ELECTRICIDAD, Source::RED, Dest::SUMINISTRO));
+        assert(key_same(w, w2, Carrier::ELECTRICIDAD, Source::RED, Dest::SUMINISTRO, Step::A));
+        assert forall|fuel: Carrier| cgn_uses(cs, false, fuel) implies #[trigger] has_fp(w2, fuel, Source::RED, Dest::SUMINISTRO, Step::A) by {
+            lemma_cgnfuel_avail(cs, fuel);
+            assert(needed(cs, fuel, Source::RED, Dest::SUMINISTRO));
+            assert(key_same(w, w2, fuel, Source::RED, Dest::SUMINISTRO, Step::A));
+            assert(has_fp(w, fuel, Source::RED, Dest::SUMINISTRO, Step::A));
+        }
+    }
+}
+/// C08 ("never turns a successful evaluation into an error"): if the evaluation with the full set succeeds, so does the one with a set
+/// that keeps every needed key - and then (thm_c08_ep) with the same figures
+pub proof fn thm_c08_no_new_error(comps: Components, w: Seq<Factor>, w2: Seq<Factor>, k_exp: f32, area: f32, lm: bool, r: Result<EnergyPerformance>, r2: Result<EnergyPerformance>)
+    requires comps_wf(comps.data@), nonneg_list(comps.data@), vals_dom(comps.data@), no_cogen_aux(comps.data@), needed_kept(w, w2, comps.data@),
+             ep_post(comps, w, k_exp, area, lm, r), ep_post(comps, w2, k_exp, area, lm, r2), r is Ok,
+    ensures r2 is Ok, ep_rel(r->Ok_0, r2->Ok_0, idx_ident(nsteps(comps.data@) as int), 1real, 1real),
+{
+    let cs = comps.data@;
+    let x = r->Ok_0;
+    if r2 is Err {
+        lemma_cgn_ok_needed(w, w2, cs);
+        let (c, wf2, used, prod, fm, exp, del) = choose|c: Carrier, wf: Seq<Factor>, used: UsedEnergy, prod: ProducedEnergy, fm: Seq<f32>, exp: ExportedEnergy, del: DeliveredEnergy|
+            in_avail(cs, c) && #[trigger] cgn_added(w2, wf, cs) && #[trigger] flows_ok(cs, c, lm, used, prod, fm, exp, del) && !we_factors_ok(wf, c, exp, del);
+        assert(x.balance_cr@.contains_key(c));
+        let bx = x.balance_cr@[c];
+        assert(bfc_post(cs, x.wfactors.wdata@, c, rv(k_exp), lm, bx));
+        reveal(bfc_post);
+        let a = Run { cs: filter_carrier(cs, c), used: bx.used, prod: bx.prod, fm: bx.f_match@, exp: bx.exp, del: bx.del };
+        let b = Run { cs: filter_carrier(cs, c), used: used, prod: prod, fm: fm, exp: exp, del: del };
+        lemma_filter_carrier(cs, c, nsteps(cs));
+        lemma_cgn_needed(w, w2, x.wfactors.wdata@, wf2, cs);
+        thm_c08_lookups(cs, c, a, lm, x.wfactors.wdata@, wf2);
+        // the two tuples of flows are two evaluations of the same components
+        let n = nsteps(cs) as int;
+        let idx = idx_ident(n);
+        lemma_lay_same(n, 1real);
+        assert(tags_same(cs, cs));
+        assert forall|i2: int| 0 <= i2 < idx.len() implies 0 <= #[trigger] idx[i2] < nsteps(cs) && val_rel(cs, cs, idx[i2], i2, 1real) by {
+            assert(idx[i2] == i2);
+            assert forall|j: int| 0 <= j < cs.len() implies rv(#[trigger] e_vals(cs[j])[i2]) == 1real * rv(e_vals(cs[j])[i2]) by {
+                assert(1real * rv(e_vals(cs[j])[i2]) == rv(e_vals(cs[j])[i2])) by(nonlinear_arith);
+            }
+        }
+        lemma_ok_carrier(comps, comps, lm, idx, 1real, 1real, c, x.wfactors.wdata@, wf2, a, b);
+        assert(cwe_post(x.wfactors.wdata@, c, rv(k_exp), bx.used, bx.exp, bx.del, Ok(bx.we)));
+        assert(we_factors_ok(x.wfactors.wdata@, c, a.exp, a.del));
+        assert(false);
+    }
+    thm_c08_ep(comps, w, w2, k_exp, area, lm, r, r2);
+}
